@@ -338,10 +338,11 @@ func genC08Case(t *rapid.T) *C08Case {
 			if rapid.IntRange(0, 3).Draw(t, "override") == 0 {
 				s.Unscoped = genOverride(t, p.ty, mg)
 				if rapid.IntRange(0, 3).Draw(t, "callFn") == 0 && len(s.Unscoped) > 0 {
-					s.CallFns = []string{"cfn1"}
+					fn := rapid.SampledFrom([]string{"cfn1", "cfn1", "reenter"}).Draw(t, "callFnName") // (reenter: validates another object of the type from inside the validation)
+					s.CallFns = []string{fn}
 					for _, f := range p.ty.Fields {
 						if _, ok := s.Unscoped[f.Name]; ok {
-							s.Unscoped[f.Name] += ",cfn1"
+							s.Unscoped[f.Name] += "," + fn
 							break
 						}
 					}
